@@ -101,6 +101,20 @@ PoolResult RunPool(const PoolOptions &opt, const PoolCallbacks &cb) {
   if (g_shm == MAP_FAILED) abort();
   memset(g_shm, 0, sizeof(Shm));
   g_shm->next = opt.begin;
+  // Stride coprime to |total| (a bijection of the index space).
+  uint64_t stride = 1000003;
+  if (opt.permute && total > 1) {
+    auto gcd = [](uint64_t a, uint64_t b) {
+      while (b) {
+        uint64_t t = a % b;
+        a = b;
+        b = t;
+      }
+      return a;
+    };
+    while (gcd(stride, total > opt.head ? total - opt.head : total) != 1) ++stride;
+  }
+  const uint64_t head = opt.head;
   std::vector<Worker> ws(W);
 
   auto spawn = [&](int w) {
@@ -146,8 +160,15 @@ PoolResult RunPool(const PoolOptions &opt, const PoolCallbacks &cb) {
       // which worker executes it does not matter.
       while (true) {
         if (g_shm->stop) break;
-        const uint64_t idx = __atomic_fetch_add(&g_shm->next, 1, __ATOMIC_RELAXED);
-        if (idx >= opt.end) break;
+        const uint64_t k = __atomic_fetch_add(&g_shm->next, 1, __ATOMIC_RELAXED);
+        if (k >= opt.end) break;
+        uint64_t idx = k;
+        if (opt.permute && k - opt.begin >= head && total > head + 1) {
+          const uint64_t rest = total - head;
+          idx = opt.begin + head +
+                static_cast<uint64_t>(
+                    (static_cast<unsigned __int128>(k - opt.begin - head) * stride) % rest);
+        }
         g_shm->w[w].cur_idx = idx;
         g_shm->w[w].run_counter = g_shm->w[w].run_counter + 1;
         g_shm->w[w].tag = 0;
